@@ -62,6 +62,11 @@
 #define IS_VEC (OP == W_SENDV || OP == W_WRITEV || OP == W_SENDMSG || OP == W_SENDV_N || OP == W_WRITEV_N || OP == R_READV || OP == R_RECVMSG || OP == R_READV_N || OP == K_READV || OP == K_WRITEV)
 
 #define SK_FD 5
+#ifdef FIXCNT
+#define TFULL (FIXCNT * MLEN)       // largest total of this job
+#else
+#define TFULL (IS_SEQ ? 6 : TMAX)
+#endif
 #define FLEN (IS_VEC ? MLEN : IS_SEQ ? 3 : TMAX)     // longest single element
 
 extern "C" {
@@ -281,7 +286,7 @@ void harness_doio()
     if (r >= 0) CHECK((size_t)r == POS, "a successful read returns exactly the number of bytes consumed from the socket");
 #if IS_LOOP
     if (r >= 0) CHECK((size_t)r == (T < L ? T : L), "read_n/readv_n return the full count unless the peer closed (then the bytes moved so far)");
-    if (r >= 0 && (size_t)r < T) WITNESS("short read_n because of EOF");
+    if (TFULL >= 1 && r >= 0 && (size_t)r < T) WITNESS("short read_n because of EOF");
 #else
     if (r >= 0) CHECK((size_t)r <= T && (r >= 1 || T == 0 || L == 0), "recv/read move at most the requested count and at least one byte unless EOF");
 #endif
@@ -309,11 +314,11 @@ void harness_doio()
 
     if (r == -1 && sk_get(Q_TIMEDOUT)) WITNESS("timeout");
     if (r >= 0 && nintr == KINTR && nagain == KAGAIN) WITNESS("success after EINTR and EAGAIN");
-    if (r == (ssize_t)T && T == (IS_SEQ ? 6 : TMAX)) WITNESS("full-size transfer");
+    if (r == (ssize_t)T && T == TFULL) WITNESS("full-size transfer");
     if (T == 0) WITNESS("zero-length request");
 #if IS_LOOP
-    if (r == (ssize_t)T && calls >= 3 && nintr == 0 && nagain == 0) WITNESS("resumed after partial transfers");
-    if (r == -1 && !sk_get(Q_TIMEDOUT) && moved > 0) WITNESS("error after some bytes moved");
+    if (TFULL >= 3 && r == (ssize_t)T && calls >= 3 && nintr == 0 && nagain == 0) WITNESS("resumed after partial transfers");
+    if (TFULL >= 2 && r == -1 && !sk_get(Q_TIMEDOUT) && moved > 0) WITNESS("error after some bytes moved");
 #else
     if (r >= 1 && (size_t)r < T) WITNESS("partial single-shot transfer");
 #endif
